@@ -308,7 +308,7 @@ theorem scan_errors_iff {α} (elems : List α) keyOf typeName allowType (cursor 
 theorem scan_missing_empty {α} keyOf typeName allowType (cursor : Int) opts render
     (hc : 0 ≤ cursor) (hl : opts.length % 2 = 0) (hok : allPairsOk allowType opts = true) :
     scanReply ([] : List α) keyOf typeName allowType cursor opts render
-      = .ok (.arr [.int 0, .arr []]) := by
+      = .ok (.arr [.bulk (intBytes 0), .arr []]) := by
   obtain ⟨o', h⟩ := (parse_ok_iff allowType opts {}).mpr ⟨hl, hok⟩
   unfold scanReply
   rw [if_neg (by omega), if_neg (by simp [hl]), h]
